@@ -73,10 +73,9 @@ class Net(torch.nn.Module):
     def __init__(self):
         super().__init__()
         g = torch.Generator().manual_seed(11)
-        self.c1 = torch.nn.Conv1d(4, 3, 3)
-        self.a1 = BadReg()
-        self.c2 = torch.nn.Conv1d(3, 2, 1)
-        self.a2 = TripAct()
+        # the non-linearities sit at different nesting depths (a cleanup that only visits direct children must be noticed)
+        self.stem = torch.nn.Sequential(torch.nn.Conv1d(4, 3, 3), BadReg())
+        self.mid = torch.nn.Sequential(torch.nn.Sequential(torch.nn.Conv1d(3, 2, 1), TripAct()))
         self.bn = torch.nn.BatchNorm1d(2)
         self.lin = torch.nn.Linear(12, 2)
         with torch.no_grad():
@@ -86,7 +85,7 @@ class Net(torch.nn.Module):
 
     def forward(self, X, arg=None):
         tick("forward")
-        h = self.a2(self.c2(self.a1(self.c1(X))))
+        h = self.mid(self.stem(X))
         y = self.lin(self.bn(h).flatten(1))
         if arg is not None:
             y = y + arg.reshape(-1, 1).type(y.dtype)
